@@ -616,7 +616,7 @@ class Bf3File:
             payload = fwtag_rdr.read(payload_len)
             if payload_offs != cur_block_end_adr and cur_block:
                 blocks[cur_block_start_adr] = b"".join(cur_block)
-                cur_block = []
+                cur_block = [payload]
                 cur_block_start_adr = payload_offs
             else:
                 cur_block.append(payload)
